@@ -182,6 +182,13 @@ func runC12(ctx *runCtx) {
 		patsets = append(patsets, []string{h}, []string{"*" + h[1:]}, []string{h[:len(h)-1] + "?"})
 	}
 	patsets = append(patsets, []string{"s*evil.com"}, []string{"h*.example.org"}, []string{"t?p.example.com"}, []string{"/example.com"}, []string{":example.com"})
+	// patterns that look like URLs or carry URL punctuation: a pattern is matched against the origin's host and nothing else, so
+	// these authorise nobody (no host contains "://", '?', '#' or '@')
+	patsets = append(patsets, []string{"https://*.example.com"}, []string{"https://example.com"}, []string{"other.org", "https://*.example.com"}, []string{"https://app.example.com:*"},
+		[]string{"*://*.example.com"}, []string{"*?*.example.com"}, []string{"*#*example.com"}, []string{"*@evil.com"}, []string{"http*"})
+	hosts = append(hosts, "app.example.com")
+	tails = append(tails, "?.example.com", "#app.example.com", "?x=App.Example.COM")
+	users = append(users, "app.example.com:@")
 	var cases []*c12Case
 	add := func(c *c12Case) { cases = append(cases, c) }
 	n := 9000
